@@ -204,6 +204,10 @@ def same (a b : List (String × J) × Nat) : Bool := render (.obj a.1) == render
 /-- case: (c17 STRATEGY SCHEMA (l TOP…)); obs: (obs DATA nerr) -/
 def handle (tb : Tables) (c impl : T) : String :=
   match c with
+  | .node "c17r" [_] =>
+    -- a RegisterField call (reflection set-up) and the arguments introspection lists for the field before and after:
+    -- the model is the property — the schema is what was loaded, whatever the call is given
+    if impl == T.node "obs" [T.ofBool true] then "ok" else "mismatch spec-bad (obs true)"
   | .node "c17" [.atom strat, sch, q] =>
     match decSchema sch, (do optMap decTop (← q.asList)) with
     | some S, some q =>
